@@ -139,7 +139,13 @@ class Ctx:
         if self.tmp is None:
             base = "/dev/shm" if os.path.isdir("/dev/shm") else None
             self.tmp = tempfile.mkdtemp(prefix="verif-%s-" % self.prop_id, dir=base)
-        d = os.path.join(self.tmp, "case")
+        # a new path for every call: state that the code under test keeps per path in module-level tables cannot leak from one case into the next
+        # (in production a new server on an old path is a new process)
+        prev = getattr(self, "_casedir", None)
+        if prev and os.path.exists(prev):
+            shutil.rmtree(prev, ignore_errors=True)
+        self._casedir_n = getattr(self, "_casedir_n", 0) + 1
+        d = self._casedir = os.path.join(self.tmp, "case%d" % self._casedir_n)
         if os.path.exists(d):
             shutil.rmtree(d, ignore_errors=True)
         os.makedirs(d)
